@@ -29,6 +29,6 @@ PROP = dict(
     engines=[
         gt("examples", "overlord/configstate/config", "TestVerifC29Examples", dict(shards=1), dict(shards=1), rapid=False),
         gt("histories", "overlord/configstate/config", "TestVerifC29Histories",
-           dict(checks=2000, shards=4), dict(checks=100000, shards=16)),
+           dict(checks=1300, shards=4), dict(checks=100000, shards=16)),
     ],
 )
